@@ -28,6 +28,15 @@ condition:
   (`import_never_fatal`, for every balanced assignment of mutex events to the paths:
   `balanced_paths_never_fatal`); an `Unlock` by hand on the error path ends the process
   (`unbalanced_error_path_kills`);
+* one VM entered many times: for every sequence of Run / RunCode / Call entries under contexts
+  without a Done channel, cancellable or cancelled ones, each entry returns what it returns
+  alone and no Go panic leaves an entry point (`life_runs_independent`,
+  `C03_life_never_escapes`); a `stop` whose release depends on what an earlier run left behind
+  panics after the deferred recover (`closeKept_step_exact`, `closeKept_escapes`);
+* integer-literal initialisers: with `uint(count)` shifts only a zero divisor panics
+  (`intBin_panics_iff`), the VM turns that into the error of the run (`decl_contained`), and
+  an operator evaluated by the compiler would have to be total (`fold_escapes_iff`,
+  `signed_shift_panics`);
 * `Inspect` terminates on every heap, cyclic ones included; `Equals` does not (the finding),
   and does on every heap without cycles;
 * the two loops of `parseSwitch` that depend on `nextToken` end on EVERY token stream, error
@@ -1269,6 +1278,202 @@ theorem C03_fixed_switchLoop_diverged (f : Nat) :
     have h5 : (⟨caseCaseToks, false⟩ : PSt).toks ≠ [] := by decide
     simp only [preFixSwitchLoop, if_neg h4, if_neg h5, h1, h2, h3]
     exact preFixSwitchLoop_stuck f
+
+/-! ## One VM, many runs (Model 4e): no sequence of entries lets a Go panic out of `stop` -/
+
+theorem enterImpl_panics_is_error (e : Entry) (w : String) :
+    enterImpl e (.panics w) = .error ("panic: " ++ w) := by
+  cases e <;> simp [enterImpl, enter, requiredRecovers, Entry.scope]
+
+/-- the outcome of the entered code itself is a value, a returned error or a recovered panic —
+    never a panic that leaves the entry point.  All entry points, contexts, bodies. -/
+theorem lifeBody_not_killed (st : LStep) : (lifeBody st).isKilled = false := by
+  unfold lifeBody
+  split
+  · rfl
+  · split
+    · rfl
+    · rfl
+    · rw [enterImpl_panics_is_error]; rfl
+
+/-- one entry on a VM that is not running (the code as it is: `stop` only clears the running
+    flag): the entry is admitted, returns the outcome of the entered code and leaves the VM not
+    running, whatever earlier runs left in it -/
+theorem life_step_untracked (s : Life) (st : LStep) (h : s.running = false) :
+    lifeStep .untracked s st = (lifeBody st, ⟨false, s.ch⟩) := by
+  simp [lifeStep, h, lifeStop]
+
+/-- **`life_runs_independent`**: for EVERY sequence of entries on one VM — any mix of Run /
+    RunCode / Call, of contexts without a Done channel, cancellable ones and cancelled ones, of
+    code that returns, fails, raises a Go panic or is halted — every entry returns exactly what
+    that entry alone returns (`lifeBody`: no outcome depends on what ran before), and the VM is
+    left not running.  Quantifies over all sequences and all start states that are not
+    running. -/
+theorem life_runs_independent (steps : List LStep) :
+    ∀ s : Life, s.running = false →
+      lifeSeq .untracked s steps = (steps.map lifeBody, ⟨false, s.ch⟩) := by
+  induction steps with
+  | nil =>
+    intro s h
+    cases s with
+    | mk r c => simp only at h; subst h; rfl
+  | cons st rest ih =>
+    intro s h
+    simp only [lifeSeq, life_step_untracked s st h, ih ⟨false, s.ch⟩ rfl, List.map_cons]
+
+/-- the full statement for a reused VM: no entry of any sequence ends with a Go panic in the
+    embedding program, and none is refused as `vm is already running` -/
+def C03_full_life : Prop :=
+  ∀ steps : List LStep, ∀ r ∈ (lifeSeq .untracked Life.init steps).1,
+    r.isKilled = false ∧ r ≠ .raised "vm is already running"
+
+/-- **`C03_life_never_escapes`**: the full statement holds for the code as it is. -/
+theorem C03_life_never_escapes : C03_full_life := by
+  intro steps r hr
+  rw [life_runs_independent steps Life.init rfl] at hr
+  simp only [List.mem_map] at hr
+  obtain ⟨st, _, rfl⟩ := hr
+  refine ⟨lifeBody_not_killed st, ?_⟩
+  unfold lifeBody
+  split
+  · decide
+  · split
+    · decide
+    · decide
+    · rw [enterImpl_panics_is_error]; intro h; cases h
+
+/-- a watcher channel that `stop` closes AND clears is as good: from a VM whose field is nil,
+    every sequence returns what the code as it is returns -/
+theorem closeCleared_never_escapes (steps : List LStep) :
+    lifeSeq .closeCleared Life.init steps = (steps.map lifeBody, Life.init) := by
+  induction steps with
+  | nil => rfl
+  | cons st rest ih =>
+    have h1 : lifeStep .closeCleared Life.init st = (lifeBody st, Life.init) := by
+      cases hc : st.ctx <;> simp [lifeStep, Life.init, lifeStop, closeChan, CtxK.cancellable, hc]
+    simp only [lifeSeq, h1, ih, List.map_cons]
+
+/-- why the release must not depend on what an earlier run left behind — one entry under
+    `closeKept` (stop closes the recorded channel and keeps the field), exactly: a cancellable
+    context always gets a fresh channel and returns; a context WITHOUT a Done channel returns
+    only while no cancellable run came before, and otherwise `stop` closes the channel of that
+    earlier run a second time: the Go panic `close of closed channel` leaves the entry point.
+    For every entry point, body and state with no run in progress. -/
+theorem closeKept_step_exact (c : Chan) (hc : c ≠ .opened) (st : LStep) :
+    lifeStep .closeKept ⟨false, c⟩ st =
+      if st.ctx.cancellable then (lifeBody st, ⟨false, .closed⟩)
+      else if c = .nil then (lifeBody st, ⟨false, .nil⟩)
+      else (.killed "close of closed channel", ⟨false, .closed⟩) := by
+  cases hk : st.ctx <;> cases c <;>
+    first
+    | exact absurd rfl hc
+    | simp [lifeStep, lifeStop, closeChan, CtxK.cancellable, hk]
+
+/-- the shortest such sequence: any run under a cancellable context, then any entry under
+    context.Background() -/
+theorem closeKept_escapes (a b : LStep) (ha : a.ctx.cancellable = true) (hb : b.ctx = .plain) :
+    (lifeSeq .closeKept Life.init [a, b]).1 = [lifeBody a, .killed "close of closed channel"] := by
+  have h1 := closeKept_step_exact .nil (by decide) a
+  have h2 := closeKept_step_exact .closed (by decide) b
+  simp only [ha, if_true] at h1
+  have hb' : b.ctx.cancellable = false := by rw [hb]; rfl
+  simp [hb'] at h2
+  simp only [lifeSeq, Life.init, h1, h2]
+
+/-- … and why a test that always uses the same kind of context cannot see it -/
+theorem closeKept_one_kind_returns (steps : List LStep)
+    (h : (∀ st ∈ steps, st.ctx.cancellable = true) ∨ (∀ st ∈ steps, st.ctx = .plain)) :
+    (lifeSeq .closeKept Life.init steps).1 = steps.map lifeBody := by
+  rcases h with h | h
+  · -- all cancellable: after the first step the field is `closed`, each start replaces it
+    have gen : ∀ (steps : List LStep) (c : Chan), c ≠ .opened →
+        (∀ st ∈ steps, st.ctx.cancellable = true) →
+        (lifeSeq .closeKept ⟨false, c⟩ steps).1 = steps.map lifeBody := by
+      intro steps
+      induction steps with
+      | nil => intros; rfl
+      | cons st rest ih =>
+        intro c hc hall
+        have h1 := closeKept_step_exact c hc st
+        simp only [hall st (List.mem_cons_self), if_true] at h1
+        have h2 := ih .closed (by decide) (fun x hx => hall x (List.mem_cons_of_mem _ hx))
+        simp only [lifeSeq, h1, List.map_cons, h2]
+    exact gen steps .nil (by decide) h
+  · have gen : ∀ (steps : List LStep), (∀ st ∈ steps, st.ctx = .plain) →
+        (lifeSeq .closeKept ⟨false, .nil⟩ steps).1 = steps.map lifeBody := by
+      intro steps
+      induction steps with
+      | nil => intros; rfl
+      | cons st rest ih =>
+        intro hall
+        have h1 := closeKept_step_exact .nil (by decide) st
+        have hp : st.ctx.cancellable = false := by rw [hall st (List.mem_cons_self)]; rfl
+        simp [hp] at h1
+        have h2 := ih (fun x hx => hall x (List.mem_cons_of_mem _ hx))
+        simp only [lifeSeq, h1, List.map_cons, h2]
+    exact gen steps h
+
+example : (lifeSeq .untracked Life.init
+    [⟨.runCode, .live, .returns⟩, ⟨.call, .plain, .panics⟩, ⟨.run, .done, .returns⟩]).1
+    = [.value, .error "panic: go panic", .raised "context canceled"] := by decide
+example : (lifeSeq .closeKept Life.init [⟨.runCode, .live, .raises⟩, ⟨.runCode, .plain, .returns⟩]).1
+    = [.raised "evaluation error", .killed "close of closed channel"] := by decide
+
+/-! ## Integer operators on literal operands (Model 4f) -/
+
+/-- with the count converted by `uint(…)`, as `runOperationInt` does, an integer operator
+    raises a Go panic exactly for `/` and `%` with a zero divisor.  All operators, all operands
+    (in particular every shift count, negative ones included). -/
+theorem intBin_panics_iff (o : IOp) (l r : Int) :
+    (intBin false o l r).isPanic = true ↔ (o = .div ∨ o = .mod) ∧ r = 0 := by
+  by_cases h : r = 0 <;> cases o <;> simp [intBin, Out.isPanic, h]
+
+/-- used as a signed integer, a negative shift count is a Go panic, for every left operand -/
+theorem signed_shift_panics (l r : Int) (h : r < 0) :
+    intBin true .shl l r = .panic "runtime error: negative shift amount" ∧
+    intBin true .shr l r = .panic "runtime error: negative shift amount" := by
+  simp [intBin, h]
+
+/-- … where the VM's conversion gives 0 (left shift) or the sign (right shift) -/
+theorem unsigned_shift_of_negative_count (l r : Int) (h : r < 0) :
+    intBin false .shl l r = .ok 0 ∧ intBin false .shr l r = .ok (if l < 0 then -1 else 0) := by
+  simp [intBin, shCount, h, shl64, shr64]
+
+/-- **`decl_contained`**: a declaration whose initialiser is ANY expression over integer
+    literals, negation and the integer operators evaluates to a value or to the recovered
+    error of the entry (`panic: runtime error: integer divide by zero`) — the Go panic never
+    reaches the embedding program.  Quantifies over all expressions. -/
+theorem decl_contained (e : IExpr) :
+    (declRun implConst e).1 = .value ∨ ∃ w, (declRun implConst e).1 = .error ("panic: " ++ w) := by
+  unfold declRun
+  cases evalI implConst.signedShift e with
+  | ok v => exact Or.inl rfl
+  | panic w => exact Or.inr ⟨w, by simp [implConst, enterImpl_panics_is_error]⟩
+
+theorem decl_never_killed (e : IExpr) : (declRun implConst e).1.isKilled = false := by
+  rcases decl_contained e with h | ⟨w, h⟩ <;> rw [h] <;> rfl
+
+/-- the compiler has no recover scope: if it computes the initialiser itself, the declaration
+    lets a Go panic out exactly when some operator application in the initialiser panics — so
+    every operator it evaluates has to be total the way it evaluates it.  All expressions, both
+    readings of the shift count. -/
+theorem fold_escapes_iff (sg : Bool) (e : IExpr) :
+    (declRun ⟨true, sg⟩ e).1.isKilled = true ↔ (evalI sg e).isPanic = true := by
+  unfold declRun
+  cases evalI sg e with
+  | ok v => simp [ProcRes.isKilled, Out.isPanic]
+  | panic w => simp [ProcRes.isKilled, Out.isPanic]
+
+/-- `const s = 1 << -1`: a value in the VM, a Go panic out of compiler.Compile when folded with
+    a signed count; `const z = 1 / 0`: the recovered error in the VM -/
+example : declRun implConst (.bin .shl (.lit 1) (.neg (.lit 1))) = (.value, some 0) := by decide
+example : declRun ⟨true, true⟩ (.bin .shl (.lit 1) (.neg (.lit 1)))
+    = (.killed "runtime error: negative shift amount", none) := by decide
+example : declRun implConst (.bin .div (.lit 1) (.lit 0))
+    = (.error "panic: runtime error: integer divide by zero", none) := by decide
+example : declRun implConst (.bin .shr (.neg (.lit 256)) (.bin .sub (.lit 2) (.lit 3))) = (.value, some (-1)) := by decide
+example : declRun implConst (.bin .div (.neg (.lit 9223372036854775808)) (.neg (.lit 1)))
+    = (.value, some (-9223372036854775808)) := by decide
 
 /-! ## nil children of the AST (guard of the parser findings; executable, not a theorem
 about parser.go) -/
